@@ -8,6 +8,7 @@ import (
 	"math/big"
 	"runtime"
 	"strings"
+	"time"
 
 	"github.com/zmap/zcrypto/cryptobyte"
 	cbasn1 "github.com/zmap/zcrypto/cryptobyte/asn1"
@@ -29,12 +30,10 @@ type failure struct {
 }
 
 type runner struct {
-	sh   *shape
-	lab  []int
-	enc  [maxN][]byte // reference encoding per node (children included)
-	errc [maxN]string // documented error class per node (children included)
-	errn [maxN]int    // node that raises it
-	h    ev.Hist
+	sh  *shape
+	lab []int
+	enc [maxN][]byte // reference encoding per node (children included)
+	h   ev.Hist
 
 	phase string // what the real code is doing (for panic signatures)
 
@@ -49,62 +48,157 @@ func (r *runner) e(i int) *entry { return alphabet[r.lab[i]] }
 
 var lpMax = [5]int64{0, 0xff, 0xffff, 0xffffff, 0xffffffff}
 
+// refResult is the reference outcome of a program.
+type refResult struct {
+	top      []byte
+	errClass string // documented Builder error the program must end in ("" = none)
+	errNode  int
+	errIs    error  // when non-nil: the very error value Bytes must return
+	panicCls string // "" | "user" (a continuation's own panic must be re-raised) | "unwrite" (documented Unwrite panic)
+	cut      bool   // an Unwrite removed bytes written by a preceding op of its level: no mechanical read program
+	unspec   bool   // an Unwrite reached into a completed length-prefixed block: the statement is silent
+}
+
+// level is the reference model of one Builder (top level or the child handed to a continuation).
+type level struct {
+	buf    []byte
+	err    string
+	errN   int
+	errIs  error
+	direct int // buf[direct:] was written by leaf ops of this level
+}
+
 func (r *runner) reference() (top []byte, errClass string, errNode int) {
-	sh := r.sh
-	for i := sh.n - 1; i >= 0; i-- {
+	res := r.simulate()
+	return res.top, res.errClass, res.errNode
+}
+
+// simulate executes the program on the reference model in the order the
+// harness executes it on the real Builder. The model is the documented
+// behaviour of builder.go: writes after an error are ignored, a length-prefixed
+// block whose Builder is already in error does not run its continuation,
+// SetError / AddValue's error / AddASN1GeneralizedTime's range error replace the
+// error unconditionally, a BuildError panic unwinds to the outermost
+// continuation and becomes the Builder's error, any other panic is re-raised.
+func (r *runner) simulate() *refResult {
+	res := &refResult{errNode: -1}
+	var L level
+	for _, i := range r.sh.roots {
+		switch p := r.sim([]int{i}, &L, 0, res); p {
+		case "":
+		case "build-error", "build-error-overridden":
+			L.err, L.errN, L.errIs = "build-error", i, errBuild
+			if p == "build-error-overridden" {
+				L.errIs = nil
+			}
+		default:
+			res.panicCls = p
+			return res
+		}
+	}
+	res.top, res.errClass, res.errNode, res.errIs = L.buf, L.err, L.errN, L.errIs
+	if L.err == "" {
+		res.errNode = -1
+	}
+	return res
+}
+
+func (r *runner) sim(ids []int, L *level, depth int, res *refResult) string {
+	for _, i := range ids {
 		e := r.e(i)
-		r.errc[i], r.errn[i] = "", -1
+		r.enc[i] = nil
+		switch e.k {
+		case kPanicBuildError:
+			if depth > 0 {
+				return "build-error"
+			}
+			continue // outside a continuation the harness does not panic
+		case kPanicOther:
+			if depth > 0 {
+				return "user"
+			}
+			continue
+		case kSetError, kAddValueErr:
+			L.err, L.errN, L.errIs = e.err, i, e.sentinel
+			continue
+		case kUnwrite:
+			if L.err != "" {
+				continue
+			}
+			if e.n > len(L.buf) {
+				return "unwrite"
+			}
+			if e.n > 0 {
+				if len(L.buf)-e.n < L.direct {
+					res.unspec = true
+				}
+				L.buf = L.buf[:len(L.buf)-e.n]
+				if L.direct > len(L.buf) {
+					L.direct = len(L.buf)
+				}
+				res.cut = true
+			}
+			continue
+		}
 		if !e.container {
-			r.enc[i] = e.enc
 			if e.err != "" {
-				r.errc[i], r.errn[i] = e.err, i
+				// AddASN1GeneralizedTime assigns its range error without looking at the Builder's state
+				if L.err == "" || e.err == "time-range" {
+					L.err, L.errN, L.errIs = e.err, i, nil
+				}
+				continue
+			}
+			r.enc[i] = e.enc
+			if L.err == "" {
+				L.buf = append(L.buf, e.enc...)
 			}
 			continue
 		}
-		if e.err != "" { // high tag: the continuation is not even run
-			r.enc[i] = nil
-			r.errc[i], r.errn[i] = e.err, i
+		// AddASN1 / length-prefixed block / written optional element
+		if L.err != "" {
+			continue // the continuation is not run
+		}
+		if e.err != "" { // high tag
+			L.err, L.errN, L.errIs = e.err, i, nil
 			continue
 		}
-		n := 0
-		for _, k := range sh.kids[i] {
-			n += len(r.enc[k])
-			if r.errc[i] == "" && r.errc[k] != "" {
-				r.errc[i], r.errn[i] = r.errc[k], r.errn[k]
+		var C level
+		p := r.sim(r.sh.kids[i], &C, depth+1, res)
+		n := len(C.buf)
+		overflow := e.lenLen > 0 && int64(n) > lpMax[e.lenLen]
+		switch p {
+		case "":
+		case "build-error", "build-error-overridden":
+			// the pending blocks on the way out are still flushed: an error of the block's own
+			// Builder or a length that does not fit the prefix replaces the BuildError's error
+			if C.err != "" || overflow {
+				return "build-error-overridden"
 			}
+			return p
+		default:
+			return p
 		}
-		var buf []byte
+		if C.err != "" {
+			L.err, L.errN, L.errIs = C.err, C.errN, C.errIs
+			continue
+		}
+		if overflow {
+			L.err, L.errN, L.errIs = "length-prefix-overflow", i, nil
+			continue
+		}
+		start := len(L.buf)
 		if e.lenLen > 0 {
-			if r.errc[i] == "" && int64(n) > lpMax[e.lenLen] {
-				r.errc[i], r.errn[i] = "length-prefix-overflow", i
-			}
-			buf = make([]byte, e.lenLen, e.lenLen+n)
-			for j, v := e.lenLen-1, n; j >= 0; j, v = j-1, v>>8 {
-				buf[j] = byte(v)
+			for j := e.lenLen - 1; j >= 0; j-- {
+				L.buf = append(L.buf, byte(n>>(8*uint(j))))
 			}
 		} else {
-			h := derHeader(byte(e.tag), n)
-			buf = make([]byte, len(h), len(h)+n)
-			copy(buf, h)
+			L.buf = append(L.buf, derHeader(byte(e.tag), n)...)
 		}
-		for _, k := range sh.kids[i] {
-			buf = append(buf, r.enc[k]...)
-		}
-		r.enc[i] = buf
+		L.buf = append(L.buf, C.buf...)
+		r.enc[i] = append([]byte(nil), L.buf[start:]...)
+		L.direct = len(L.buf)
 	}
-	errNode = -1
-	if len(sh.roots) == 1 {
-		top = r.enc[sh.roots[0]]
-	}
-	for _, k := range sh.roots {
-		if len(sh.roots) != 1 {
-			top = append(top, r.enc[k]...)
-		}
-		if errClass == "" && r.errc[k] != "" {
-			errClass, errNode = r.errc[k], r.errn[k]
-		}
-	}
-	return
+	return ""
 }
 
 func (r *runner) contentLen(i int) int {
@@ -117,7 +211,7 @@ func (r *runner) contentLen(i int) int {
 
 // ---------- real Builder ----------
 
-func (r *runner) write(b *cryptobyte.Builder, ids []int) {
+func (r *runner) write(b *cryptobyte.Builder, ids []int, depth int) {
 	for _, i := range ids {
 		e := r.e(i)
 		r.nBuildOps++
@@ -156,7 +250,7 @@ func (r *runner) write(b *cryptobyte.Builder, ids []int) {
 			b.AddASN1GeneralizedTime(e.t)
 		case kLP8, kLP16, kLP24, kLP32:
 			kids := r.sh.kids[i]
-			f := func(c *cryptobyte.Builder) { r.write(c, kids) }
+			f := func(c *cryptobyte.Builder) { r.write(c, kids, depth+1) }
 			switch e.lenLen {
 			case 1:
 				b.AddUint8LengthPrefixed(f)
@@ -169,11 +263,11 @@ func (r *runner) write(b *cryptobyte.Builder, ids []int) {
 			}
 		case kASN1:
 			kids := r.sh.kids[i]
-			b.AddASN1(e.tag, func(c *cryptobyte.Builder) { r.write(c, kids) })
+			b.AddASN1(e.tag, func(c *cryptobyte.Builder) { r.write(c, kids, depth+1) })
 		case kOptASN1, kOptSkip:
 			if e.present {
 				kids := r.sh.kids[i]
-				b.AddASN1(e.tag, func(c *cryptobyte.Builder) { r.write(c, kids) })
+				b.AddASN1(e.tag, func(c *cryptobyte.Builder) { r.write(c, kids, depth+1) })
 			}
 		case kOptInt:
 			if e.present {
@@ -191,11 +285,49 @@ func (r *runner) write(b *cryptobyte.Builder, ids []int) {
 			if e.present {
 				b.AddASN1Boolean(e.b)
 			}
+		case kOptInt64:
+			if e.present {
+				b.AddASN1(e.tag, func(c *cryptobyte.Builder) { c.AddASN1Int64(e.i) })
+			}
+		case kOptUint64:
+			if e.present {
+				b.AddASN1(e.tag, func(c *cryptobyte.Builder) { c.AddASN1Uint64(e.u) })
+			}
+		case kWriteUnwrite:
+			b.AddBytes(e.data)
+			b.Unwrite(e.n)
+		case kUnwrite:
+			b.Unwrite(e.n)
+		case kSetError:
+			b.SetError(e.sentinel)
+		case kAddValue:
+			b.AddValue(mvWrite{uint16(e.u)})
+		case kAddValueErr:
+			b.AddValue(mvFail{})
+		case kPanicBuildError:
+			if depth > 0 {
+				panic(cryptobyte.BuildError{Err: e.sentinel})
+			}
+		case kPanicOther:
+			if depth > 0 {
+				panic(thePanic)
+			}
+		case kUTCTime:
+			b.AddASN1(cbasn1.UTCTime, func(c *cryptobyte.Builder) { c.AddBytes(e.data) })
 		default:
 			panic("harness: unknown kind")
 		}
 	}
 }
+
+// mvWrite / mvFail are the MarshalingValues handed to Builder.AddValue.
+type mvWrite struct{ v uint16 }
+
+func (m mvWrite) Marshal(b *cryptobyte.Builder) error { b.AddUint16(m.v); return nil }
+
+type mvFail struct{}
+
+func (mvFail) Marshal(b *cryptobyte.Builder) error { return errMarshal }
 
 // zcryptoSite names the first zcrypto frame of the current (panicking) stack.
 func zcryptoSite() string {
@@ -234,36 +366,121 @@ func (r *runner) guard(f func() *failure) (out *failure) {
 }
 
 func (r *runner) build(b *cryptobyte.Builder) ([]byte, error) {
-	r.write(b, r.sh.roots)
+	r.write(b, r.sh.roots, 0)
 	return b.Bytes()
+}
+
+// capture runs f and returns the value it panicked with (nil = no panic) and,
+// for a panic, the failure that reports it as unexpected.
+func (r *runner) capture(f func()) (pv any, unexpected *failure) {
+	unexpected = r.guard(func() *failure {
+		defer func() {
+			if rec := recover(); rec != nil {
+				pv = rec
+				panic(rec)
+			}
+		}()
+		f()
+		return nil
+	})
+	return
+}
+
+// opAt names the class of the op whose reference bytes hold offset off of the level.
+func (r *runner) opAt(ids []int, off int) string {
+	pos := 0
+	for _, i := range ids {
+		n := len(r.enc[i])
+		if off < pos+n {
+			e := r.e(i)
+			if e.container {
+				hdr := n - r.contentLen(i)
+				if off >= pos+hdr {
+					return r.opAt(r.sh.kids[i], off-pos-hdr)
+				}
+			}
+			return e.class
+		}
+		pos += n
+	}
+	return "end of output"
 }
 
 // runProgram executes the program in every mode and returns the failures (one per mode at most).
 func (r *runner) runProgram() []*failure {
 	var fails []*failure
-	ref, wantErr, errNode := r.reference()
-	var out []byte
+	res := r.simulate()
+	ref, wantErr, errNode := res.top, res.errClass, res.errNode
+	var out, out2 []byte
 	var err error
 	r.phase = "Builder"
 	r.nTraces++
-	f := r.guard(func() *failure {
-		out, err = r.build(cryptobyte.NewBuilder(nil))
-		return nil
-	})
+	bld := cryptobyte.NewBuilder(nil)
+	pv, f := r.capture(func() { out, err = r.build(bld) })
 	r.nOracle++
+	if res.unspec {
+		r.h["unspecified: Unwrite reaches into a completed length-prefixed block (no verdict)"]++
+		return nil
+	}
+	grow := func(f *failure) []*failure {
+		f.mode = "grow"
+		return append(fails, f)
+	}
+	switch res.panicCls {
+	case "user":
+		if pv != any(thePanic) {
+			return grow(&failure{sig: "Builder: a continuation's panic (not a BuildError) is not re-raised with the same value", detail: fmt.Sprintf("recovered %#v, err %v", pv, err)})
+		}
+		r.h["continuation panic re-raised with the same value"]++
+		return nil
+	case "unwrite":
+		if pv == nil || !strings.Contains(fmt.Sprint(pv), "unwrite more than was written") {
+			return grow(&failure{sig: "Builder: Unwrite of more bytes than this Builder wrote does not panic as documented", detail: fmt.Sprintf("recovered %#v, Bytes() = %s, err %v", pv, hexShort(out), err)})
+		}
+		r.h["Unwrite beyond the Builder's own bytes: documented panic"]++
+		return nil
+	}
 	switch {
 	case f != nil:
 	case wantErr != "" && err == nil:
 		f = &failure{sig: fmt.Sprintf("Builder: no error although %s must fail (%s)", r.e(errNode).class, wantErr), detail: "Bytes() = " + hexShort(out)}
 	case wantErr == "" && err != nil:
 		f = &failure{sig: "Builder: unexpected error: " + ev.MsgClass(err.Error()), detail: err.Error()}
+	case wantErr != "" && res.errIs != nil && err != res.errIs:
+		f = &failure{sig: fmt.Sprintf("Builder: Bytes does not return the error value given by %s", r.e(errNode).class), detail: fmt.Sprintf("got %q want %q", err, res.errIs)}
 	}
 	if f != nil {
-		f.mode = "grow"
-		return append(fails, f)
+		return grow(f)
 	}
+	// BytesOrPanic: same bytes, or a panic with the Builder's error
+	r.phase = "BytesOrPanic"
+	pv2, _ := r.capture(func() { out2 = bld.BytesOrPanic() })
+	r.nOracle++
 	if wantErr != "" {
+		if pv2 != any(err) {
+			return grow(&failure{sig: "BytesOrPanic: no panic with the Builder's error", detail: fmt.Sprintf("recovered %#v, Bytes() error %v", pv2, err)})
+		}
 		r.h["builder-error:"+wantErr]++
+		return nil
+	}
+	if pv2 != nil || !bytes.Equal(out2, out) {
+		return grow(&failure{sig: "BytesOrPanic: differs from Bytes", detail: fmt.Sprintf("recovered %#v, %s vs %s", pv2, hexShort(out2), hexShort(out))})
+	}
+	// the built bytes are the documented encoding (big-endian integers, minimal-length prefixes, DER)
+	if !bytes.Equal(out, ref) {
+		d := 0
+		for d < len(out) && d < len(ref) && out[d] == ref[d] {
+			d++
+		}
+		cls := "Unwrite"
+		if !res.cut {
+			cls = r.opAt(r.sh.roots, d)
+		}
+		return grow(&failure{sig: "Builder: output differs from the reference encoding (first difference in " + cls + ")",
+			detail: fmt.Sprintf("offset %d: got %s (len %d) want %s (len %d)", d, hexShort(out[d:]), len(out), hexShort(ref[d:]), len(ref))})
+	}
+	if res.cut {
+		r.h["Unwrite removed bytes of preceding ops: built bytes equal the reference (no mechanical read-back)"]++
 		return nil
 	}
 	// round trip, every reader variant
@@ -287,7 +504,13 @@ func (r *runner) runProgram() []*failure {
 	if good {
 		r.h["roundtrip-ok"]++
 	}
-	if r.fixedLevel > 0 {
+	fixed := r.fixedLevel > 0
+	for i := 0; i < r.sh.n; i++ {
+		if r.e(i).noFixed {
+			fixed = false
+		}
+	}
+	if fixed {
 		fails = append(fails, r.fixedFamily(out, ref, good)...)
 	}
 	return fails
@@ -387,6 +610,14 @@ func (r *runner) fixedFamily(grow, ref []byte, readable bool) []*failure {
 }
 
 // ---------- real String readers + oracle ----------
+
+// sameTime: the same instant with the same offset from UTC (the offset is part
+// of what AddASN1GeneralizedTime writes, and of the written value).
+func sameTime(a, b time.Time) bool {
+	_, oa := a.Zone()
+	_, ob := b.Zone()
+	return a.Equal(b) && oa == ob
+}
 
 // followerClass classifies what starts at byte offset off of the level (rest = reference bytes from off):
 // nothing / a well-formed element carrying the reader's tag / another ASN.1 element written by one op / raw bytes.
@@ -673,9 +904,41 @@ func (r *runner) readLevel(s *cryptobyte.String, ids []int, ref []byte, v int) *
 			r.phase = reader
 			x := e.t.AddDate(1, 0, 0)
 			ok = s.ReadASN1GeneralizedTime(&x)
-			if !x.Equal(e.t) {
+			if !sameTime(x, e.t) {
 				bad = fmt.Sprintf("got %v want %v", x, e.t)
 			}
+		case kUTCTime:
+			reader = "ReadASN1UTCTime"
+			r.phase = reader
+			x := e.t.AddDate(1, 0, 0)
+			ok = s.ReadASN1UTCTime(&x)
+			if !sameTime(x, e.t) {
+				bad = fmt.Sprintf("got %v want %v", x, e.t)
+			}
+		case kAddValue:
+			reader = "ReadUint16"
+			r.phase = reader
+			x := uint16(0x5a5a)
+			ok = s.ReadUint16(&x)
+			if uint64(x) != e.u {
+				bad = fmt.Sprintf("got %d want %d", x, e.u)
+			}
+		case kWriteUnwrite:
+			reader = "ReadBytes"
+			r.phase = reader
+			if encLen == 0 {
+				ok = true // nothing was left to read
+			} else {
+				var x []byte
+				ok = s.ReadBytes(&x, encLen)
+				if !bytes.Equal(x, e.enc) {
+					bad = "bytes differ"
+				}
+			}
+		case kUnwrite, kPanicBuildError, kPanicOther:
+			// Unwrite(0), or a panic letter outside any continuation: nothing was written
+			reader = "(no reader)"
+			ok = true
 		case kLP8:
 			reader = "ReadUint8LengthPrefixed"
 			r.phase = reader
